@@ -7,6 +7,7 @@ package lib
 
 import (
 	"errors"
+	"io"
 	"sync"
 	"time"
 
@@ -31,6 +32,7 @@ type Conn struct {
 	log      []Ev
 	consumed int
 	fed      int
+	curErr   error // what the harness last fed as the read error (nil = none)
 }
 
 func NewConn() *Conn { return &Conn{ScriptConn: vlib.NewScriptConn()} }
@@ -50,7 +52,7 @@ func (c *Conn) Read(b []byte) (int, error) {
 	c.add(Ev{Kind: "readcall", N: len(b)})
 	n, err := c.ScriptConn.Read(b)
 	for err == errWake {
-		c.ScriptConn.FeedErr(nil)
+		c.FeedErr(nil)
 		n, err = c.ScriptConn.Read(b)
 	}
 	c.mu.Lock()
@@ -128,7 +130,28 @@ func (c *Conn) Fed() int {
 // called while the endpoint is blocked in Read (c.Wait returned false) or not running.
 func (c *Conn) ElapseDeadlines() {
 	c.ScriptConn.FireDeadlines = true
-	c.ScriptConn.FeedErr(errWake) // wakes a blocked Read so that it re-evaluates
+	c.FeedErr(errWake) // wakes a blocked Read so that it re-evaluates
+}
+
+// FeedErr / FeedEOF shadow the ScriptConn's so that the current value is known to Nudge.
+func (c *Conn) FeedErr(err error) {
+	c.mu.Lock()
+	c.curErr = err
+	c.ScriptConn.FeedErr(err)
+	c.mu.Unlock()
+}
+
+func (c *Conn) FeedEOF() { c.FeedErr(io.EOF) }
+
+// Nudge wakes everybody waiting on the conn without changing its state.  ScriptConn.WaitT
+// arms a timer and computes its deadline slightly later; when the timer's wake-up arrives
+// before that deadline the waiter goes back to sleep with no further wake-up coming, and
+// would only return when the endpoint call ends — which a wedged call never does.  Await
+// therefore nudges periodically while it waits.
+func (c *Conn) Nudge() {
+	c.mu.Lock()
+	c.ScriptConn.FeedErr(c.curErr)
+	c.mu.Unlock()
 }
 
 // LogSummary renders the log compactly (runs of reads are merged) for violation reports.
